@@ -6,6 +6,7 @@ import (
 	"runtime/debug"
 	"sort"
 	"strings"
+	"time"
 
 	"github.com/echovault/sugardb/sugardb"
 	"github.com/echovault/sugardb/verifrt"
@@ -69,6 +70,9 @@ func (in *ctlInstance) doCtl(ci int, a Action) (out string) {
 		if err := in.db.VerifSamplerTick(int(a.N)); err != nil {
 			return "ERR(" + err.Error() + ")"
 		}
+		return "ok"
+	case "adv":
+		verifrt.Advance(time.Duration(a.N)*time.Millisecond, nil)
 		return "ok"
 	case "getstate":
 		st := in.db.VerifGetState()
